@@ -119,16 +119,19 @@ class Wavefunction:
         return self._amplitude_vector[idx]
 
     def __setitem__(self, idx, val):
-        old_val = self._amplitude_vector[idx]
-        if isinstance(old_val, np.ndarray):
-            # numpy indexing may return a view; copy it so the rollback restores it
-            old_val = old_val.copy()
+        self._amplitude_vector[idx]  # reject an invalid index before anything changes
+        # the assignment may touch more entries than `idx` names (sympy copies a
+        # sequence in starting at an integer index), so keep all of them for rollback
+        old_amplitudes = self._amplitude_vector.copy()
         self._amplitude_vector[idx] = val
 
         try:
             self._check_normalization(self._amplitude_vector)
         except ValueError:
-            self._amplitude_vector[idx] = old_val
+            if isinstance(self._amplitude_vector, np.ndarray):
+                self._amplitude_vector[...] = old_amplitudes
+            else:
+                self._amplitude_vector[:, :] = old_amplitudes
 
             raise ValueError("This assignment violates probability unity.")
 
